@@ -24,6 +24,7 @@
 #include <time.h>
 #include <unistd.h>
 #include <utmp.h>
+#include <arpa/inet.h>
 #include <utmpx.h>
 #include <sys/utsname.h>
 #include <termios.h>
@@ -283,7 +284,7 @@ static int sim_getpwuid_r(uid_t uid, struct passwd *pwd, char *buf, size_t len, 
 }
 struct passwd *getpwuid(uid_t uid) {
     if (!sim_active()) return REAL(getpwuid)(uid);
-    static __thread struct passwd pw; static __thread char b[512]; struct passwd *res;
+    static struct passwd pw; static char b[512]; struct passwd *res;   // one buffer for all threads, as in glibc
     int r = sim_getpwuid_r(uid, &pw, b, sizeof b, &res); if (r) { errno = r; return nullptr; } return res;
 }
 static int sim_getgrgid_r(gid_t gid, struct group *grp, char *buf, size_t len, struct group **res);
@@ -310,7 +311,7 @@ static int sim_getgrgid_r(gid_t gid, struct group *grp, char *buf, size_t len, s
 }
 struct group *getgrgid(gid_t gid) {
     if (!sim_active()) return REAL(getgrgid)(gid);
-    static __thread struct group gr; static __thread char b[512]; struct group *res;
+    static struct group gr; static char b[512]; struct group *res;
     int r = sim_getgrgid_r(gid, &gr, b, sizeof b, &res); if (r) { errno = r; return nullptr; } return res;
 }
 static int sim_getlogin_r(char *buf, size_t len);
@@ -330,7 +331,7 @@ static int sim_getlogin_r(char *buf, size_t len) {
 }
 char *getlogin(void) {
     if (!sim_active()) return REAL(getlogin)();
-    static __thread char b[256]; int r = sim_getlogin_r(b, sizeof b); if (r) { errno = r; return nullptr; } return b;
+    static char b[256]; int r = sim_getlogin_r(b, sizeof b); if (r) { errno = r; return nullptr; } return b;
 }
 
 // ---------------------------------------------------------------- host, cwd, tty, utmp
@@ -425,7 +426,7 @@ static int sim_ttyname_r(int fd, char *buf, size_t len) {
 }
 char *ttyname(int fd) {
     if (!sim_active()) return REAL(ttyname)(fd);
-    static __thread char b[256]; int r = sim_ttyname_r(fd, b, sizeof b); if (r) { errno = r; return nullptr; } return b;
+    static char b[256]; int r = sim_ttyname_r(fd, b, sizeof b); if (r) { errno = r; return nullptr; } return b;
 }
 static __thread size_t t_ut_cursor;
 void setutent(void) { if (!sim_active()) { REAL(setutent)(); return; } SimScope s; sim_step(); sim_event("setutent"); t_ut_cursor = 0; }
@@ -568,6 +569,34 @@ int __register_atfork(void (*prepare)(void), void (*parent)(void), void (*child)
     G.counters["atfork-registered"]++;
     return 0;
 }
+
+// ---------------------------------------------------------------- stdio calls on the streams all threads share
+// Each call takes and releases the stream's lock by itself: between two calls of one thread another thread can put its own bytes into the
+// stream. The scheduling point comes before the call, where no lock is held (inside the write callback the lock is held and nobody may be parked).
+static void stdio_point(FILE *f) { if (f == stdout || f == stderr) { SimScope s; sched_point(SP_IO); } }
+int fputs(const char *str, FILE *f) { if (sim_active()) stdio_point(f); return REAL(fputs)(str, f); }
+int fputc(int c, FILE *f) { if (sim_active()) stdio_point(f); return REAL(fputc)(c, f); }
+int putc(int c, FILE *f) { if (sim_active()) stdio_point(f); return REAL(putc)(c, f); }
+int putchar(int c) { if (sim_active()) stdio_point(stdout); return REAL(fputc)(c, stdout); }
+int puts(const char *str) { if (sim_active()) stdio_point(stdout); return REAL(puts)(str); }
+size_t fwrite(const void *p, size_t sz, size_t n, FILE *f) { if (sim_active()) stdio_point(f); return REAL(fwrite)(p, sz, n, f); }
+int vfprintf(FILE *f, const char *fmt, va_list ap) { if (sim_active()) stdio_point(f); return REAL(vfprintf)(f, fmt, ap); }
+int fprintf(FILE *f, const char *fmt, ...) { bool a = sim_active(); va_list ap; va_start(ap, fmt); if (a) stdio_point(f); int r = REAL(vfprintf)(f, fmt, ap); va_end(ap); return r; }
+int vprintf(const char *fmt, va_list ap) { if (sim_active()) stdio_point(stdout); return REAL(vfprintf)(stdout, fmt, ap); }
+int printf(const char *fmt, ...) { bool a = sim_active(); va_list ap; va_start(ap, fmt); if (a) stdio_point(stdout); int r = REAL(vfprintf)(stdout, fmt, ap); va_end(ap); return r; }
+int fflush(FILE *f) { if (sim_active() && f) stdio_point(f); return REAL(fflush)(f); }
+
+// ---------------------------------------------------------------- libc functions that keep their state in one static object
+// They run for real; the simulator only makes the hidden state visible: a store to a stand-in object that TSan can see, and a scheduling
+// point, so that two threads inside such a function (or between two calls of a strtok sequence) can be interleaved.
+static char g_nonreentrant_state[16];
+static void nonreentrant(int which, const char *name) { SimScope s; sim_step(); sim_event("nonreentrant", name); char one = 1; sut_write(&g_nonreentrant_state[which], &one, 1); sched_point(SP_IO); }
+char *strtok(char *str, const char *delim) { if (!sim_active()) return REAL(strtok)(str, delim); nonreentrant(0, "strtok"); return REAL(strtok)(str, delim); }
+struct tm *localtime(const time_t *t) { if (!sim_active()) return REAL(localtime)(t); nonreentrant(1, "localtime"); return REAL(localtime)(t); }
+struct tm *gmtime(const time_t *t) { if (!sim_active()) return REAL(gmtime)(t); nonreentrant(1, "gmtime"); return REAL(gmtime)(t); }
+char *ctime(const time_t *t) { if (!sim_active()) return REAL(ctime)(t); nonreentrant(2, "ctime"); return REAL(ctime)(t); }
+char *asctime(const struct tm *t) { if (!sim_active()) return REAL(asctime)(t); nonreentrant(2, "asctime"); return REAL(asctime)(t); }
+char *inet_ntoa(struct in_addr a) { if (!sim_active()) return REAL(inet_ntoa)(a); nonreentrant(3, "inet_ntoa"); return REAL(inet_ntoa)(a); }
 
 // ---------------------------------------------------------------- calls that wait for somebody else
 unsigned sleep(unsigned n) { if (!sim_active()) return REAL(sleep)(n); blocks("sleep"); return 0; }
